@@ -77,10 +77,26 @@ class Collector:
     except CaseTimeout:
       self.errors.append({'kind': 'timeout', 'case': case, 'trace': ''})
       return None
-    except Exception:   # harness bug or undeclared library exception
+    except core.InvalidCase:
       self.errors.append({'kind': 'exception', 'case': case,
                           'trace': traceback.format_exc()[-3000:]})
       return None
+    except Exception as e:   # harness bug or undeclared library exception
+      # An exception that escapes from inside the library (innermost frame in the repository) on a call the
+      # check did not expect to fail is a behaviour of the code under test: report it as a violation, bucketed
+      # by (exception class, innermost library function).  Anything else is a harness error.
+      tb = traceback.extract_tb(e.__traceback__)
+      repo = os.path.realpath(os.environ.get('PGV_REPO', '/repo'))
+      inner = tb[-1] if tb else None
+      if inner is not None and os.path.realpath(inner.filename).startswith(repo + os.sep):
+        res = core.Result()
+        res.violate('the library raised %s: %s (in %s, %s:%d) on a call the check expects to succeed; case=%s' % (
+            type(e).__name__, str(e)[:300], inner.name, os.path.relpath(inner.filename, repo), inner.lineno,
+            json.dumps(case)[:600]), law='library-raises', exc=type(e).__name__, where=inner.name)
+      else:
+        self.errors.append({'kind': 'exception', 'case': case,
+                            'trace': traceback.format_exc()[-3000:]})
+        return None
     finally:
       signal.setitimer(signal.ITIMER_REAL, 0)
       dt = time.time() - t_case
